@@ -30,8 +30,11 @@ IsRunLike(t) == t.kind \in {"run", "alias"}
 IsBuildable(t) == IsBuild(t) \/ t.kind = "custom"
 
 \* run_target / alias_target produce no file, only a top-level name
+\* build_subdir: (build targets and custom targets, _build_target_base.yaml): a directory below the target's output
+\* directory; read through an accessor so that abstract projects without the field keep their meaning
+TBsub(t) == IF "bsub" \in DOMAIN t THEN t.bsub ELSE ""
 OutDir(p, t) == IF IsRunLike(t) THEN ""
-                ELSE IF p.layout = "flat" THEN "meson-out" ELSE Loc(t)
+                ELSE Join(IF p.layout = "flat" THEN "meson-out" ELSE Loc(t), TBsub(t))
 
 LibTypes(p, t) ==
     CASE t.kind = "static" -> {"static"}
